@@ -473,8 +473,12 @@ func (lb *LoadBalancer) AddBackend(backendCfg config.BackendConfig) error {
 		ExpectContinueTimeout: 1 * time.Second,
 
 		// Performance optimizations
-		ForceAttemptHTTP2:  true,  // Use HTTP/2 when available
-		DisableCompression: false, // Let backend handle compression
+		ForceAttemptHTTP2: true, // Use HTTP/2 when available
+		// Do not let the transport negotiate gzip on its own: with compression enabled it
+		// adds "Accept-Encoding: gzip" to requests that carry none and decodes the reply,
+		// so the backend saw a header the client never sent and the client got a re-framed
+		// response. The client's own Accept-Encoding is passed through unchanged.
+		DisableCompression: true,
 	}
 
 	proxy.Transport = transport
@@ -812,6 +816,15 @@ type responseWriter struct {
 func (rw *responseWriter) WriteHeader(statusCode int) {
 	rw.statusCode = statusCode
 	rw.ResponseWriter.WriteHeader(statusCode)
+}
+
+// Flush implements the http.Flusher interface so that streamed responses (chunked
+// streaming, server-sent events) reach the client when the backend flushes them instead
+// of when the response ends
+func (rw *responseWriter) Flush() {
+	if f, ok := rw.ResponseWriter.(http.Flusher); ok {
+		f.Flush()
+	}
 }
 
 // Hijack implements the http.Hijacker interface to support websockets
